@@ -6,6 +6,8 @@
     * `dmpic <w> <h> <bits>`                          ANY bit picture handed to the bitmap → DataMatrixReader (PURE_BARCODE)
     * `qr <mw> <mh> <bits> <quiet> <reqW> <reqH> hint=<h>`   module matrix → renderResult → image → bitmap → QRCodeReader
     * `qrpic <w> <h> <bits> hint=<h>`                 ANY bit picture → QRCodeReader (PURE_BARCODE)
+    * `qrfloat <s> <n>`                               the three quantities of `QRFloatExact` under IEEE binary64 (Lean `Float`):
+                                                      `<Round(float64(n*s)/ms)> <int(ms/2.0)> <number of a < n with int(float64(a)*ms) ≠ a*s>`, ms = float64(7s)/7.0
   answer: `img=<W>x<H>:<hash> black=<W>x<H>:<hash>|ERR:k bits=<w>x<h>:<rows>|ERR:k out=<…>|ERR:k`
   (`img=` only for the rendered commands; stages after a failed one print `-`).
 -/
@@ -71,7 +73,18 @@ def picRows (w : Nat) (bits : String) : List (List Bool) :=
   let all := parseBits bits
   (List.range (if w = 0 then 0 else all.length / w)).map fun r => (all.drop (r * w)).take w
 
+/-- the quantities of `Gzx.Image2D.QRFloatExact` evaluated with IEEE binary64 -/
+def qrFloat (s n : Int) : String :=
+  let o := FOps.float
+  let ms := o.div (o.ofInt (7 * s)) (o.ofInt 7)
+  let bad := ((List.range n.toNat).filter fun (a : Nat) => o.toInt (o.mul (o.ofInt a) ms) != (a : Int) * s).length
+  s!"{o.round (o.div (o.ofInt (n * s)) ms)} {o.toInt (o.div ms (o.ofInt 2))} {bad}"
+
 def handle : List String → String
+  | ["qrfloat", s, n] =>
+    match parseInt? s, parseInt? n with
+    | some s, some n => qrFloat s n
+    | _, _ => "bad-op"
   | ["dm", mw, mh, bits, w, h] =>
     match parseNat? mw, parseNat? mh, parseInt? w, parseInt? h with
     | some mw, some mh, some w, some h =>
